@@ -11,7 +11,7 @@
 //
 //	NUM <hex text> <ParseFloat bits|err> <ParseUint|err> <Atoi as int64 hex|err>
 //
-// usage: verif_parser c04 <seed> <files> <maxdefs> | c12 <seed> <files> <maxdefs> <random cases>
+// usage: verif_parser c04 <seed> <files> <maxdefs> | c12 <seed> <files> <maxdefs> <random cases> [<token mutation stride>]
 package main
 
 import (
@@ -470,9 +470,19 @@ func main() {
 				}
 			}
 		}
+		// grammar-aware token mutations (tokmut.go): stride 0 = every triple in all three variants
+		stride := 6
+		if len(os.Args) > 6 {
+			stride = atoi(os.Args[6])
+		}
+		all := stride == 0
+		if all {
+			stride = 1
+		}
+		nb := emitTokenMutations(seed, 0, all, stride)
 		for i := 0; i < nrand; i++ {
 			kind, t := randomCase(g, i)
-			emitCase("c12b", i, t, " "+kind, nil, false)
+			emitCase("c12b", nb+i, t, " "+kind, nil, false)
 		}
 	default:
 		panic("unknown mode " + mode)
